@@ -78,7 +78,9 @@ func fromSwarms[A p2p.Addr](kind string, sws []p2p.Swarm[A], lookups []func(ctx 
 	for i, s := range sws {
 		s := s
 		n := &Node{Index: i, Addr: text(addrs[i]), Close: s.Close, MTU: s.MTU}
-		n.Tell = func(ctx context.Context, to int, payload []byte) error { return s.Tell(ctx, addrs[to], p2p.IOVec{payload}) }
+		n.Tell = func(ctx context.Context, to int, payload []byte) error {
+			return s.Tell(ctx, addrs[to], p2p.IOVec{payload})
+		}
 		n.TellVec = func(ctx context.Context, to int, v p2p.IOVec) error { return s.Tell(ctx, addrs[to], v) }
 		n.Receive = func(ctx context.Context, fn func(src, dst string, payload []byte)) error {
 			return s.Receive(ctx, func(m p2p.Message[A]) { fn(text(m.Src), text(m.Dst), m.Payload) })
@@ -204,6 +206,8 @@ func (a mapAddr) MarshalText() ([]byte, error) {
 func (a mapAddr) String() string { return "m-" + a.Addr.String() }
 
 // NewCluster builds n nodes of the given kind.
+var quicRealm = memswarm.NewRealm(memswarm.WithQueueLen(256))
+
 func NewCluster(kind string, n int) (*Cluster, error) {
 	type M = memswarm.Addr
 	switch kind {
@@ -375,7 +379,9 @@ func NewCluster(kind string, n int) (*Cluster, error) {
 		}
 		return fromSwarms(kind, sws, lks, func() {}), nil
 	case "quic/mem":
-		r := memswarm.NewRealm(memswarm.WithQueueLen(256))
+		// quic-go keeps a process-wide table of packet connections keyed by their local address TEXT: two live
+		// clusters in two realms would both own address "0". One shared realm keeps the addresses distinct.
+		r := quicRealm
 		type QA = quicswarm.Addr[M]
 		var sws []p2p.Swarm[QA]
 		var lks []func(context.Context, QA) error
